@@ -2,6 +2,8 @@ package main
 
 import (
 	"fmt"
+	"go/token"
+	"go/types"
 	"regexp"
 	"strings"
 
@@ -513,5 +515,79 @@ func ruleFileWatch(c *Ctx, prefix string) {
 		c.R.bad(prefix+"FILE.WATCH", key, c.P.Pos(w.Pos()), shortFn(w), strings.Join(dedup(bad), "; "))
 	} else {
 		c.R.ok(prefix+"FILE.WATCH", key, c.P.Pos(w.Pos()), shortFn(w), "reloads on every event; a failing reload continues with the next event; the loop ends only when the channel is closed")
+	}
+	ruleFileName(c, prefix, sf, w)
+}
+
+// ruleFileName: the path loaded at start-up, the path watched and the path
+// reloaded on every event are all the configured argument itself (at most
+// lexically normalised): "the file" of the property is the configured name at
+// the time of each reload, not whatever it resolved to when the server started.
+func ruleFileName(c *Ctx, prefix string, sf, w *ssa.Function) {
+	rule := prefix + "FILE.NAME"
+	var accept func(v ssa.Value) bool
+	accept = func(v ssa.Value) bool {
+		switch x := v.(type) {
+		case *ssa.Const:
+			return x.Value != nil && x.Value.ExactString() == `""` // a helper's failure return: no file is ever read under the empty name
+		case *ssa.UnOp:
+			if ia, ok := x.X.(*ssa.IndexAddr); ok && x.Op == token.MUL {
+				_, isParam := ia.X.(*ssa.Parameter)
+				k, isConst := ia.Index.(*ssa.Const)
+				return isParam && isConst && k.Value != nil && k.Value.ExactString() == "0"
+			}
+		case *ssa.Call:
+			if f := x.Call.StaticCallee(); f != nil && f.String() == "path/filepath.Clean" {
+				ok, _ := staticOrigins(c, sf, x.Call.Args[0], accept)
+				return ok
+			}
+		case *ssa.Extract:
+			if call, ok := x.Tuple.(*ssa.Call); ok && x.Index == 0 {
+				if f := call.Call.StaticCallee(); f != nil && f.String() == "path/filepath.Abs" {
+					ok, _ := staticOrigins(c, sf, call.Call.Args[0], accept)
+					return ok
+				}
+			}
+		}
+		return false
+	}
+	n := 0
+	seen := map[ssa.Instruction]bool{}
+	check := func(in ssa.Instruction) {
+		call, ok := in.(*ssa.Call)
+		if !ok || seen[in] {
+			return
+		}
+		f := call.Call.StaticCallee()
+		if f == nil {
+			return
+		}
+		var arg ssa.Value
+		what := ""
+		switch {
+		case isAnchor(f, "loadFromFile"):
+			for _, a := range call.Call.Args {
+				if b, ok := a.Type().Underlying().(*types.Basic); ok && b.Kind() == types.String {
+					arg, what = a, "loaded"
+				}
+			}
+		case f.Name() == "Add" && f.Signature.Recv() != nil && strings.HasSuffix(namedOf(f.Signature.Recv().Type()), "fsnotify.Watcher"):
+			arg, what = call.Call.Args[len(call.Call.Args)-1], "watched"
+		}
+		if arg == nil {
+			return
+		}
+		seen[in] = true
+		n++
+		key := fmt.Sprintf("%s path %s#%d", shortFn(in.Parent()), what, n)
+		if ok, why := staticOrigins(c, sf, arg, accept); ok {
+			c.R.ok(rule, key, c.P.InstrPos(in), shortFn(in.Parent()), "the path "+what+" is the configured argument itself")
+		} else {
+			c.R.bad(rule, key, c.P.InstrPos(in), shortFn(in.Parent()), "the path "+what+" is not the configured file name itself but derived from it ("+shortName(why)+"): a reload reads whatever that resolved to at start-up, not the configured file")
+		}
+	}
+	eachInstr(sf, check)
+	if w != nil {
+		eachInstr(w, check)
 	}
 }
